@@ -3,6 +3,7 @@
 package internal
 
 import (
+    "bytes"
     "errors"
     "fmt"
     "strconv"
@@ -361,7 +362,15 @@ func (lex *lexer) AppendError(err error)  {
 }
 
 func (lex* lexer) Pos() ast.Position {
-    return ast.Position{Line: lex.line, Column: lex.ts - lex.lineStart + 1}
+    line, lineStart := lex.line, lex.lineStart
+    if lex.ts < lineStart {
+        // Keywords are matched together with the whitespace that
+        // follows them, so the scanner may already have counted
+        // newlines that come after the start of this token.
+        line -= bytes.Count(lex.data[lex.ts:lineStart], []byte{'\n'})
+        lineStart = bytes.LastIndexByte(lex.data[:lex.ts], '\n') + 1
+    }
+    return ast.Position{Line: line, Column: lex.ts - lineStart + 1}
 }
 
 func (lex* lexer) RecordPosition(n ast.Node, pos ast.Position) {
